@@ -189,7 +189,7 @@ func (m *Machine) Explore(root *ssa.Package, fn *ssa.Function, args []value, job
 			completed = true
 		}()
 		res.Paths++
-		if completed && wantSample(res.Paths-1, len(res.Samples), e.MaxSamples) && !e.inconcl && !e.violated && !hasPoolChoice(e.sched) {
+		if completed && wantSample(res.Paths-1, len(res.Samples), e.MaxSamples) && !e.inconcl && !e.violated && !e.ufUsed && !hasPoolChoice(e.sched) {
 			if script := e.sampleModel(); script != nil {
 				res.Samples = append(res.Samples, Sample{Job: job, Script: script, Trace: append([]string{}, e.trace...), Sched: append([]string{}, e.sched...)})
 			}
